@@ -190,6 +190,10 @@ func runScenario(r *Run, sc scenario, wellFormed func(storeOp) bool) {
 		}
 		out := rig.apply(o)
 		r.Emit(o.wire(), out)
+		if sc.Kind == "redis" && o.Kind != "tick" && o.Kind != "sweep" {
+			// the raw state of the key on the server (fields and remaining TTL) against the model's hash, after every operation
+			r.Emit("sop dump 0 "+hx(o.ID), rig.dump(o.ID))
+		}
 		r.Dist["op:"+o.Kind]++
 		if o.Kind == "tick" || o.Kind == "sweep" {
 			continue
